@@ -113,7 +113,13 @@ def _setter(model):
                 lambda v: ["hbs", v]),
             st.one_of(fl(1.0, 10.0), st.sampled_from([1.0, 10.0])).map(
                 lambda v: ["hms", v]),
-            st.sampled_from(AREAS).map(lambda v: ["area", v]), pol)
+            st.sampled_from(AREAS).map(lambda v: ["area", v]), pol,
+            # values outside the documented validity ranges: the setter
+            # refuses them (RuntimeError) and the model stays what it was
+            st.sampled_from([["bad", "fc", 100.0], ["bad", "fc", 2000.0],
+                             ["bad", "hbs", 10.0], ["bad", "hbs", 250.0],
+                             ["bad", "hms", 0.5], ["bad", "hms", 12.0],
+                             ["bad", "area", "rural"]]))
     return pol      # general, 3gpp1: only the policy can change
 
 
@@ -541,9 +547,23 @@ def _check_pathloss(case, ctx):
         ctx.label("model:" + model, "steps=%d" % min(len(case["steps"]), 9))
         for step in case["steps"]:
             if step["set"] is not None:
-                name, value = step["set"]
-                setattr(obj, _ATTR[name], value)
-                if name == "policy":
+                if step["set"][0] == "bad":
+                    _, name, value = step["set"]
+                    try:
+                        setattr(obj, _ATTR[name], value)
+                    except RuntimeError:
+                        ctx.label("set_refused:" + name)
+                        name = None
+                    else:
+                        # accepted: nothing is stated about such a model
+                        ctx.label("set_out_of_range_accepted")
+                        return
+                else:
+                    name, value = step["set"]
+                    setattr(obj, _ATTR[name], value)
+                if name is None:
+                    pass
+                elif name == "policy":
                     policy = bool(value)
                 else:
                     p[name] = value
